@@ -114,7 +114,7 @@ HasFree  == \E n \in 1..Len(Names) : Names[n] \notin DOMAIN sess
 MethodLists == {<<>>, <<"anonymous">>, <<"ticket">>, <<"wampcra">>, <<"cryptosign">>, <<"bogus", "ticket">>, <<"#", "wampcra">>,
                 <<"", "cryptosign">>, <<"bogus">>, <<"#">>, <<"wampcra", "ticket">>, <<"cryptosign", "anonymous">>,
                 <<"anonymous", "ticket">>, <<"ticket", "cryptosign">>}
-HsUsers == {"alice", "bob", "carol", "mallory", ""}
+HsUsers == {"alice", "bob", "carol", "mallory", "mallory2", ""}
 
 DoHello(hh) ==
   LET s == Names[FreeName]
@@ -158,7 +158,10 @@ GAuth ==
         pm(x) == IF sess[x].st \in {"pending", "rejected"} THEN sess[x].hs.method ELSE sess[x].attrs.authmethod
         same == {x \in DOMAIN sess \ {s} : sess[x].attrs.authid = me /\ pm(x) = m}
         anych == {x \in DOMAIN sess \ {s} : pm(x) = m}
-    IN \E kind \in W(<<"valid", "valid", "valid", "replay", "replay", "replay", "wrongkey", "otherch", "garbage", "other", "empty", "empty">>),
+        \* (somebody who claims an identity nobody has can only guess)
+        stranger == me \notin {"alice", "bob", "carol"}
+    IN \E kind \in (IF stranger THEN W(<<"empty", "empty", "empty", "wrongkey", "garbage", "valid">>)
+                    ELSE W(<<"valid", "valid", "valid", "replay", "replay", "replay", "wrongkey", "otherch", "garbage", "other", "empty">>)),
           other \in R({"alice", "bob", "carol"} \ {me}) :
        CASE kind = "replay" /\ same # {} -> \E x \in R(same) : DoAuth(s, [kind |-> "sig", key |-> me, ch |-> x])
          [] kind = "otherch" /\ anych # {} -> \E x \in R(anych) : DoAuth(s, [kind |-> "sig", key |-> sess[x].attrs.authid, ch |-> x])
